@@ -35,6 +35,15 @@ TABLE = {
         ("Exception", r"ERROR This compiler cannot handle this constraint", "trajectory_constraints_remover.py:211"),
     ],
     "UndefinedInitialNumericRemover": [],
+    "TimedToSequential": [
+        ("UPUnsupportedProblemTypeError", r"Intermediate effects are not supported", "timed_to_sequential.py:292"),
+        ("UPUnsupportedProblemTypeError", r"start time conditional effects that affect", "timed_to_sequential.py:324-342"),
+    ],
+    "DurativeActionToProcesses": [],
+    "InterpretedFunctionsRemover": [
+        ("UPUnsupportedProblemTypeError", r"does not support durative conditions that contain Interpreted Functions", "interpreted_functions_remover.py:361"),
+        ("UPProblemDefinitionError", r"can't be removed without changing", "_compile docstring (:raises:)"),
+    ],
     "CompilersPipeline": [
         ("UPUsageError", r"Compilers pipeline ignores the compilation_kind parameter", "compilers_pipeline.py:76"),
     ],
